@@ -74,7 +74,7 @@ func typeStats(t reflect.Type, seen map[reflect.Type]bool) (maxElem uintptr, dep
 // remaining input allocates about maxElem bytes per input byte per nesting
 // level; one that trusts a length field allocates maxElem*claimed bytes.
 const (
-	allocK = 32
+	allocK = 16
 	allocC = 16 << 10
 )
 
@@ -811,7 +811,7 @@ type pair struct {
 
 func TestCheck(t *testing.T) {
 	r := vh.Start(t, "C16")
-	rule := "cases: for every generated type (requests and responses of every key, named message types, Record, RecordBatch, MessageV0/V1, StickyMemberMetadata) x every version 0..max+1: valid encodings (independent interpreter, 4 value modes; generated encoder on random and default values) and their mutations: every truncation (sampled at field boundaries above 160 bytes), single and multi bit flips (every bit of encodings up to 64 bytes), structure-aware length-field attacks at marked positions (array/bytes/string/varint lengths, tag count/key/size, nullable flag: remaining+1, 2^16, 2^20, 2^26, MaxInt32, -1, -2, MinInt32, null, overlong and overflowing varints), blind length overwrites and inserts, byte patterns and random bytes; each through ReadFrom and UnsafeReadFrom. Judged: no panic; re-encode/decode fix-point on every accepted input; bytes allocated by one call (TotalAlloc delta, serial phase: all length attacks on 2 seeds per pair, patterns, sampled mutations) <= 32*maxElemSize*(len+1)+16KiB. Non-trivial: the input was accepted, or its first mutated byte lies after a complete field of a valid encoding; distinct by (type, version, accepted/rejected)"
+	rule := "cases: for every generated type (requests and responses of every key, named message types, Record, RecordBatch, MessageV0/V1, StickyMemberMetadata) x every version 0..max+1: valid encodings (independent interpreter, 4 value modes; generated encoder on random and default values) and their mutations: every truncation (sampled at field boundaries above 160 bytes), single and multi bit flips (every bit of encodings up to 64 bytes), structure-aware length-field attacks at marked positions (array/bytes/string/varint lengths, tag count/key/size, nullable flag: remaining+1, 2^16, 2^20, 2^26, MaxInt32, -1, -2, MinInt32, null, overlong and overflowing varints), blind length overwrites and inserts, byte patterns and random bytes; each through ReadFrom and UnsafeReadFrom. Judged: no panic; re-encode/decode fix-point on every accepted input; bytes allocated by one call (TotalAlloc delta, serial phase: all length attacks on 2 seeds per pair, patterns, sampled mutations) <= 16*maxElemSize*(len+1)+16KiB. Non-trivial: the input was accepted, or its first mutated byte lies after a complete field of a valid encoding; distinct by (type, version, accepted/rejected)"
 	assume := []string{
 		"allocation is measured as runtime.MemStats.TotalAlloc deltas around single calls in a serial phase of the test process; maxElemSize is the largest slice element of the Go type (reflect), at least 32",
 		"CPU time is not judged: a tagged-field count near 2^32 in a struct without known tags makes kmsg's tag loop spin for about a minute on an exhausted reader (observed, see level_note). Inputs whose tag count in such a struct exceeds 2^17 (found by walking the input along the definition, krammar.Scan) are counted as cpu_hazard_not_run and not decoded",
@@ -936,10 +936,10 @@ func TestCheck(t *testing.T) {
 
 	// ---- phase A: everything, in parallel: no panic + fix-point
 	giant := r.Violations() == 0
-	nflips := r.Pick(96, 1500)
-	nblind := r.Pick(24, 400)
-	nrandom := r.Pick(96, 6000)
-	perMarksA := r.Pick(32, 400)
+	nflips := r.Pick(96, 600)
+	nblind := r.Pick(24, 200)
+	nrandom := r.Pick(96, 3000)
+	perMarksA := r.Pick(32, 200)
 	var total atomic.Int64
 	vh.Parallel(len(pairs), runtime.NumCPU(), func(pi int) {
 		p := pairs[pi]
